@@ -323,8 +323,8 @@ MUTANTS = [
 
 
 def run(ctx):
-    ctx.search("getinfo", getinfo_cases(), quick=800, thorough=5000)
-    ctx.search("getinfo1", getinfo1_cases(), quick=800, thorough=5000)
-    ctx.search("getconf", getconf_cases(), quick=600, thorough=4000)
+    ctx.search("getinfo", getinfo_cases(), quick=800, thorough=10000)
+    ctx.search("getinfo1", getinfo1_cases(), quick=800, thorough=10000)
+    ctx.search("getconf", getconf_cases(), quick=600, thorough=8000)
     n = 3 if ctx.quick() else 4
     ctx.enumerate("getinfo", exhaustive_getinfo(n), name="all-values-len<=%d-over-critical-alphabet" % n)
